@@ -11,7 +11,7 @@ open GluonModel.TypePrint
 
 /-- What may stand in the head position of an application (well-kinded heads). -/
 def headLike : Ty → Bool
-  | .con _ | .var _ | .app _ _ => true
+  | .con _ | .var _ | .app _ _ | .proj _ => true
   | _ => false
 
 mutual
@@ -28,6 +28,8 @@ def core : Ty → Prop
   | .all vs b => vs ≠ [] ∧ core b
   | .app f a => core f ∧ headLike f = true ∧ core a
   | .record cut row => rowOK row ∧ cut = fieldsLen row
+  | .proj ids => 2 ≤ ids.length
+  | .effect row => rowOK row
   | _ => False
 /-- rows of value fields, closed (`EmptyRow`) or ending in a row variable -/
 def rowOK : Ty → Prop
@@ -49,6 +51,7 @@ def need : Ty → Nat
   | .app f a => max (need f) (need a + argc f + 2) + 6
   | .rfield _ t rest => max (need t) (need rest) + 4
   | .record _ row => need row + 6
+  | .effect row => need row + 6
   | _ => 4
 
 theorem need_ge (t : Ty) : 4 ≤ need t := by
@@ -71,6 +74,7 @@ def HeadOK : List Tok → Prop
   | .id _ :: _ => True
   | .lparen :: _ => True
   | .lbrace :: _ => True
+  | .lbracket :: .pipe :: _ => True
   | _ => False
 
 /-- what follows the fields of a record: `}` or `| tail` -/
@@ -186,6 +190,7 @@ theorem HeadOK.noDot {l : List Tok} (h : HeadOK l) : NoDot l := by
   | .id _ :: _, _ => trivial
   | .lparen :: _, _ => trivial
   | .lbrace :: _, _ => trivial
+  | .lbracket :: .pipe :: _, _ => trivial
 
 theorem HeadOK.start {l : List Tok} (h : HeadOK l) :
     ∃ t ts, l = t :: ts ∧ atomStart t = true ∧ typeStart t = true ∧ t ≠ .arrow ∧ t ≠ .dotdot := by
@@ -193,11 +198,40 @@ theorem HeadOK.start {l : List Tok} (h : HeadOK l) :
   | .id s :: ts, _ => exact ⟨_, _, rfl, rfl, rfl, by simp, by simp⟩
   | .lparen :: ts, _ => exact ⟨_, _, rfl, rfl, rfl, by simp, by simp⟩
   | .lbrace :: ts, _ => exact ⟨_, _, rfl, rfl, rfl, by simp, by simp⟩
+  | .lbracket :: .pipe :: ts, _ => exact ⟨_, _, rfl, rfl, rfl, by simp, by simp⟩
+
+/-- the `. id` continuation of a dotted name -/
+def dotTail : List String → List Tok
+  | [] => []
+  | x :: xs => .dot :: .id x :: dotTail xs
+
+theorem dotted_cons (a : String) (l : List String) : dotted (a :: l) = .id a :: dotTail l := by
+  induction l generalizing a with
+  | nil => simp [dotted, dotTail]
+  | cons b l ih => simp [dotted, dotTail, ih]
+
+theorem print_proj (p : Prec) (a b : String) (l : List String) :
+    print p (.proj (a :: b :: l)) = .id a :: dotTail (b :: l) := by
+  simp only [print, dotted_cons]
+
+theorem proj_shape (ids : List String) (h : 2 ≤ ids.length) : ∃ a b l, ids = a :: b :: l := by
+  match ids, h with
+  | a :: b :: l, _ => exact ⟨a, b, l, rfl⟩
+
+theorem print_effect (p : Prec) (row : Ty) :
+    print p (.effect row) = .lbracket :: .pipe ::
+      (printFields true (fieldsLen row) 0 row ++ (rowTail row ++ [.pipe, .rbracket])) := by
+  simp [print]
 
 theorem headOK_headLike (f : Ty) : core f → headLike f = true → ∀ rest, HeadOK (print .top f ++ rest) := by
   induction f with
   | con n => intro _ _ rest; simp [HeadOK]
   | var n => intro _ _ rest; simp [HeadOK]
+  | proj ids =>
+    intro hc _ rest
+    simp only [core] at hc
+    obtain ⟨a, b, l, rfl⟩ := proj_shape ids hc
+    rw [print_proj]; simp [HeadOK]
   | app f a ihf _ =>
     intro hc _ rest
     simp only [core] at hc
@@ -224,6 +258,11 @@ theorem headOK_fun (t : Ty) (hc : core t) (rest : List Tok) :
     simp only [core] at hc
     rw [print_app, enclose_fun_con, List.append_assoc]
     exact headOK_headLike f hc.1 hc.2.1 _
+  | proj ids =>
+    simp only [core] at hc
+    obtain ⟨a, b, l, rfl⟩ := proj_shape ids hc
+    rw [print_proj]; simp [HeadOK]
+  | effect row => rw [print_effect]; simp [HeadOK]
   | record cut row => simp only [core] at hc; exact headOK_record _ _ _ hc.1 _
   | _ => simp [core] at hc
 
@@ -237,6 +276,11 @@ theorem headOK_con (t : Ty) (hc : core t) (rest : List Tok) :
   | fn i a r => rw [print_fn, enclose_con]; simp [HeadOK]
   | all vs b => rw [print_all, enclose_con]; simp [HeadOK]
   | app f a => rw [print_app, enclose_con]; simp [HeadOK]
+  | proj ids =>
+    simp only [core] at hc
+    obtain ⟨a, b, l, rfl⟩ := proj_shape ids hc
+    rw [print_proj]; simp [HeadOK]
+  | effect row => rw [print_effect]; simp [HeadOK]
   | record cut row => simp only [core] at hc; exact headOK_record _ _ _ hc.1 _
   | _ => simp [core] at hc
 
@@ -270,6 +314,11 @@ theorem head_top (t : Ty) (hc : core t) (rest : List Tok) :
   | app f a =>
     have := headOK_headLike (.app f a) hc rfl rest
     exact fromOK _ this
+  | proj ids =>
+    simp only [core] at hc
+    obtain ⟨a, b, l, rfl⟩ := proj_shape ids hc
+    exact fromOK _ (by rw [print_proj]; simp [HeadOK])
+  | effect row => exact fromOK _ (by rw [print_effect]; simp [HeadOK])
   | record cut row => simp only [core] at hc; exact fromOK _ (headOK_record _ _ _ hc.1 _)
   | _ => simp [core] at hc
 
@@ -280,6 +329,12 @@ theorem pProjTail_noDot (l : List Tok) (h : NoDot l) : pProjTail l = ([], l) := 
   | [], _ => simp [pProjTail]
   | t :: ts, h =>
     cases t <;> simp [NoDot] at h <;> simp [pProjTail]
+
+theorem pProjTail_dotTail (l : List String) (rest : List Tok) (h : NoDot rest) :
+    pProjTail (dotTail l ++ rest) = (l, rest) := by
+  induction l with
+  | nil => simpa [dotTail] using pProjTail_noDot rest h
+  | cons x xs ih => simp [dotTail, pProjTail, ih]
 
 theorem pIdents_map (vs : List String) (rest : List Tok) :
     pIdents (vs.map .id ++ .dot :: rest) = (vs, .dot :: rest) := by
@@ -293,6 +348,7 @@ theorem pType_headOK (F : Nat) (l : List Tok) (h : HeadOK l) : pType (F + 1) l =
   | .id s :: ts, _ => simp [pType]
   | .lparen :: ts, _ => simp [pType]
   | .lbrace :: ts, _ => simp [pType]
+  | .lbracket :: .pipe :: ts, _ => simp [pType]
 
 theorem pArgs_stop (G : Nat) (h : Ty) (rest : List Tok) (hr : NoAtom rest) :
     pArgs (G + 1) h rest = some (h, rest) := by
@@ -355,6 +411,7 @@ theorem pType_lbracket (F : Nat) (X ts' rest : List Tok) (a r : Ty) (h : HeadOK 
   | .id s :: ts, _ => simp only [pType, hq, hr]
   | .lparen :: ts, _ => simp only [pType, hq, hr]
   | .lbrace :: ts, _ => simp only [pType, hq, hr]
+  | .lbracket :: .pipe :: ts, _ => simp only [pType, hq, hr]
 
 theorem noAtom_endBrace (l : List Tok) (h : EndBrace l) : NoDot l ∧ NoAtom l ∧ NoArrow l := by
   match l, h with
@@ -466,11 +523,13 @@ def RowReads (row : Ty) : Prop :=
       pFields F (printFields true (i + fieldsLen row) i row ++ rest) = some ([], fieldsOf row, rest)) ∧
   (∀ F i rest, need row ≤ F →
       pCommaTypes F (printFields false (i + fieldsLen row) i row ++ .rparen :: rest)
-        = some (typesOf row, .rparen :: rest))
+        = some (typesOf row, .rparen :: rest)) ∧
+  (∀ F i rest, need row ≤ F → EndBrace rest →
+      pEffFields F (printFields true (i + fieldsLen row) i row ++ rest) = some (fieldsOf row, rest))
 
 theorem rowReads_empty (row : Ty) (h : rowOK row) (h0 : fieldsLen row = 0) : RowReads row := by
   have hn := need_ge row
-  refine ⟨?_, ?_⟩
+  refine ⟨?_, ?_, ?_⟩
   · intro F i rest hF he
     obtain ⟨G, rfl⟩ : ∃ G, F = G + 1 := ⟨F - 1, by omega⟩
     obtain ⟨e1, e2, _⟩ := printFields_len0 row h h0 true (i + fieldsLen row) i
@@ -483,6 +542,13 @@ theorem rowReads_empty (row : Ty) (h : rowOK row) (h0 : fieldsLen row = 0) : Row
     obtain ⟨e1, _, e3⟩ := printFields_len0 row h h0 false (i + fieldsLen row) i
     rw [e1, e3, List.nil_append]
     simp [pCommaTypes, typeStart, atomStart]
+  · intro F i rest hF he
+    obtain ⟨G, rfl⟩ : ∃ G, F = G + 1 := ⟨F - 1, by omega⟩
+    obtain ⟨e1, e2, _⟩ := printFields_len0 row h h0 true (i + fieldsLen row) i
+    rw [e1, e2, List.nil_append]
+    match rest, he with
+    | .rbrace :: ts, _ => simp [pEffFields, pIdent]
+    | .pipe :: ts, _ => simp [pEffFields, pIdent]
 
 /-- a tuple `( T0, …, Tn )`, `n ≠ 1` -/
 theorem pAtomic_tuple (F : Nat) (ts rest : List Tok) (elems : List Ty) (hne : elems.length ≠ 1)
@@ -532,10 +598,48 @@ theorem reads_all (t : Ty) : (core t → Reads t) ∧ (rowOK t → RowReads t) :
     refine ⟨fun _ => ?_, fun h => by simp [rowOK] at h⟩
     exact reads_atom .arrow [.lparen, .arrow, .rparen] (by simp) (by simp [HeadOK])
       (fun G rest _ => by simp [pAtomic]) (by simp [need]) (by simp [argc])
-  | proj ids => exact ⟨fun h => by simp [core] at h, fun h => by simp [rowOK] at h⟩
+  | proj ids =>
+    refine ⟨fun h => ?_, fun h => by simp [rowOK] at h⟩
+    simp only [core] at h
+    obtain ⟨a, b, l, rfl⟩ := proj_shape ids h
+    exact reads_atom (.proj (a :: b :: l)) (.id a :: dotTail (b :: l)) (fun p => print_proj p a b l)
+      (by intro rest; simp [HeadOK])
+      (fun G rest hd => by
+        simp only [List.cons_append, pAtomic, pProjTail_dotTail (b :: l) rest hd])
+      (by simp [need]) (by simp [argc])
   | rtype n ps t rest _ _ => exact ⟨fun h => by simp [core] at h, fun h => by simp [rowOK] at h⟩
   | variant row _ => exact ⟨fun h => by simp [core] at h, fun h => by simp [rowOK] at h⟩
-  | effect row _ => exact ⟨fun h => by simp [core] at h, fun h => by simp [rowOK] at h⟩
+  | effect row ihrow =>
+    refine ⟨fun hc => ?_, fun h => by simp [rowOK] at h⟩
+    simp only [core] at hc
+    obtain ⟨_, _, R3⟩ := ihrow.2 hc
+    have hnr := need_ge row
+    apply reads_atomic _ _ (fun p => print_effect p row) rfl (by intro rest; simp [HeadOK])
+      (by simp only [need]; omega)
+    intro F rest hF hd
+    simp only [need] at hF
+    obtain ⟨G, rfl⟩ : ∃ G, F = G + 1 := ⟨F - 1, by omega⟩
+    have e : Tok.lbracket :: .pipe ::
+          (printFields true (fieldsLen row) 0 row ++ (rowTail row ++ [.pipe, .rbracket])) ++ rest
+        = .lbracket :: .pipe :: (printFields true (0 + fieldsLen row) 0 row
+            ++ (rowTail row ++ .pipe :: .rbracket :: rest)) := by simp
+    rw [e]
+    have hm := mkRow_fieldsOf row hc
+    rcases rowEnd_cases row hc with ⟨hend, htail, _⟩ | ⟨r, hend, hr, htail, _⟩
+    · rw [htail, List.nil_append]
+      have hf := R3 G 0 (.pipe :: .rbracket :: rest) (by omega) trivial
+      rw [Nat.zero_add] at hf
+      rw [hend] at hm
+      simp [pAtomic, hf, hm]
+    · rw [htail]
+      have hf := R3 G 0 (.pipe :: .id r :: .pipe :: .rbracket :: rest) (by omega) trivial
+      rw [Nat.zero_add] at hf
+      obtain ⟨_, _, Cv, _⟩ := reads_var r hr
+      have hv := Cv G (.pipe :: .rbracket :: rest) (by simp only [need]; omega) trivial
+        (by simp [NoAtom, atomStart]) trivial
+      rw [hend] at hm
+      simp only [print_var, List.singleton_append] at hv
+      simp [pAtomic, hf, hv, hm]
   | rnil =>
     exact ⟨fun h => by simp [core] at h, fun h => rowReads_empty _ h (by simp [fieldsLen])⟩
   | fn i a r iha ihr =>
@@ -654,8 +758,8 @@ theorem reads_all (t : Ty) : (core t → Reads t) ∧ (rowOK t → RowReads t) :
     simp only [rowOK] at h
     obtain ⟨hup, hct, hrest⟩ := h
     obtain ⟨_, _, Ct, _⟩ := iht.1 hct
-    obtain ⟨R1, R2⟩ := ihrest.2 hrest
-    refine ⟨?_, ?_⟩
+    obtain ⟨R1, R2, R3⟩ := ihrest.2 hrest
+    refine ⟨?_, ?_, ?_⟩
     · -- `name : type,` … read by `RecordField`
       intro F i rest0 hF he
       simp only [need] at hF
@@ -721,11 +825,43 @@ theorem reads_all (t : Ty) : (core t → Reads t) ∧ (rowOK t → RowReads t) :
           (.comma :: (printFields false (i + 1 + fieldsLen rest) (i + 1) rest ++ .rparen :: rest0))
         rw [hX] at hq ⊢
         simp [pCommaTypes, hs, hq, hrec]
+    · -- `name : type,` … read by `Effect` (effect rows)
+      intro F i rest0 hF he
+      simp only [need] at hF
+      obtain ⟨G, rfl⟩ : ∃ G, F = G + 1 := ⟨F - 1, by omega⟩
+      obtain ⟨hd0, ha0, har0⟩ := noAtom_endBrace rest0 he
+      have hlen : i + fieldsLen (.rfield n t rest) = (i + 1) + fieldsLen rest := by
+        simp only [fieldsLen]; omega
+      rw [hlen]
+      simp only [printFields, fieldsOf, if_true]
+      by_cases h0 : fieldsLen rest = 0
+      · obtain ⟨e1, e2, _⟩ := printFields_len0 rest hrest h0 true (i + 1 + fieldsLen rest) (i + 1)
+        have hb : (i + 1 != i + 1 + fieldsLen rest) = false := by simp [h0]
+        rw [e1, e2, hb]
+        have e : identToks n ++ [Tok.colon] ++ print .top t ++ (if false = true then [Tok.comma] else []) ++ [] ++ rest0
+            = identToks n ++ .colon :: (print .top t ++ rest0) := by simp
+        rw [e]
+        have hq := Ct G rest0 (by omega) hd0 ha0 har0
+        simp only [pEffFields, pIdent_identToks, hq]
+        match rest0, he with
+        | .rbrace :: _, _ => simp
+        | .pipe :: _, _ => simp
+      · have hb : (i + 1 != i + 1 + fieldsLen rest) = true := by simp; omega
+        rw [hb]
+        have e : identToks n ++ [Tok.colon] ++ print .top t ++ (if true = true then [Tok.comma] else [])
+              ++ printFields true (i + 1 + fieldsLen rest) (i + 1) rest ++ rest0
+            = identToks n ++ .colon :: (print .top t ++ .comma ::
+                (printFields true (i + 1 + fieldsLen rest) (i + 1) rest ++ rest0)) := by simp
+        rw [e]
+        have hq := Ct G (.comma :: (printFields true (i + 1 + fieldsLen rest) (i + 1) rest ++ rest0))
+          (by omega) trivial (by simp [NoAtom, atomStart]) trivial
+        have hrec := R3 G (i + 1) rest0 (by omega) he
+        simp [pEffFields, pIdent_identToks, hq, hrec]
   | record cut row ihrow =>
     refine ⟨fun hc => ?_, fun h => by simp [rowOK] at h⟩
     simp only [core] at hc
     obtain ⟨hrow, rfl⟩ := hc
-    obtain ⟨R1, R2⟩ := ihrow.2 hrow
+    obtain ⟨R1, R2, _⟩ := ihrow.2 hrow
     have hnr := need_ge row
     by_cases ht : isTuple row = true
     · -- tuple syntax
@@ -799,10 +935,22 @@ theorem need_le_tokens_all (t : Ty) :
   | con n => exact ⟨fun _ => by simp [need, argc], fun h => by simp [rowOK] at h⟩
   | var n => exact ⟨fun _ => by simp [need, argc], fun _ => by simp [need]⟩
   | arrow => exact ⟨fun _ => by simp [need, argc], fun h => by simp [rowOK] at h⟩
-  | proj ids => exact ⟨fun h => by simp [core] at h, fun h => by simp [rowOK] at h⟩
+  | proj ids =>
+    refine ⟨fun h => ?_, fun h => by simp [rowOK] at h⟩
+    simp only [core] at h
+    obtain ⟨a, b, l, rfl⟩ := proj_shape ids h
+    simp [need, argc, print_proj]; omega
   | rtype n ps t rest _ _ => exact ⟨fun h => by simp [core] at h, fun h => by simp [rowOK] at h⟩
   | variant row _ => exact ⟨fun h => by simp [core] at h, fun h => by simp [rowOK] at h⟩
-  | effect row _ => exact ⟨fun h => by simp [core] at h, fun h => by simp [rowOK] at h⟩
+  | effect row ihrow =>
+    refine ⟨fun hc => ?_, fun h => by simp [rowOK] at h⟩
+    simp only [core] at hc
+    have hr := ihrow.2 hc true (fieldsLen row) 0
+    refine ⟨?_, ?_, fun p => by rw [print_effect, print_effect]; exact Nat.le_refl _⟩
+    · rw [print_effect]
+      simp only [need, List.length_append, List.length_cons, List.length_nil] at hr ⊢
+      omega
+    · rw [print_effect]; simp [argc]
   | rnil => exact ⟨fun h => by simp [core] at h, fun _ => by simp [need]⟩
   | fn i a r iha ihr =>
     refine ⟨fun hc => ?_, fun h => by simp [rowOK] at h⟩
@@ -905,6 +1053,11 @@ theorem head_top_atom (t : Ty) (hc : core t) (hnf : ∀ vs b, t ≠ .all vs b) (
       exact ⟨_, _, rfl, by simp [atomStart]⟩
   | all vs b => exact absurd rfl (hnf _ _)
   | app f a => exact fromOK _ (headOK_headLike (.app f a) hc rfl rest)
+  | proj ids =>
+    simp only [core] at hc
+    obtain ⟨a, b, l, rfl⟩ := proj_shape ids hc
+    exact fromOK _ (by rw [print_proj]; simp [HeadOK])
+  | effect row => exact fromOK _ (by rw [print_effect]; simp [HeadOK])
   | record cut row => simp only [core] at hc; exact fromOK _ (headOK_record _ _ _ hc.1 _)
   | _ => simp [core] at hc
 
